@@ -279,8 +279,7 @@ Proof.
   - unfold emit_pieces in Hp.
     destruct (ctor (uses_binary c) EVENT (PList (event :: pack data)) (Some ns) None None) as [p|] eqn:Ec;
       [|discriminate Hp]. cbn [bind] in Hp.
-    destruct (encode p) as [enc|] eqn:Ee; [|discriminate Hp]. cbn [bind] in Hp. injection Hp as <-.
-    rewrite run_lift_ok, Ee, run_lift_ok, Hl, run_lift_ok. apply run_emit_loop.
+    rewrite run_lift_ok, Hp, run_lift_ok, Hl, run_lift_ok. apply run_emit_loop.
   - rewrite (participants_no_ns _ _ _ _ Ens Hl). reflexivity.
 Qed.
 
